@@ -1,0 +1,82 @@
+//go:build verif
+
+package kernel
+
+import (
+	"github.com/MixinNetwork/mixin/common"
+	"github.com/MixinNetwork/mixin/crypto"
+	"github.com/MixinNetwork/mixin/kernel/internal/clock"
+	"github.com/MixinNetwork/mixin/p2p"
+)
+
+// Verification hooks (build tag verif) for C24: a local self announcement
+// (CosiActionSelfEmpty) driven through the real cosiHook of the node's own
+// chain, in the situations in which the kernel rejects or defers it.
+
+// VerifC24PrepareSelf lets the node list know the node's own (pledging) chain,
+// as a pledge transaction would, so that a self announcement passes the
+// membership checks.  Idempotent.
+func (node *Node) VerifC24PrepareSelf() bool {
+	chain := node.chain
+	if chain == nil || chain.ConsensusInfo == nil {
+		return false
+	}
+	if node.getAcceptedOrPledgingNode(node.IdForNetwork, clock.NowUnixNano()) != nil {
+		return true
+	}
+	self := *chain.ConsensusInfo
+	self.State = common.NodeStatePledging
+	last := node.nodeStateSequences[len(node.nodeStateSequences)-1]
+	last.NodesWithoutState = append(append([]*CNode{}, last.NodesWithoutState...), &self)
+	return node.getAcceptedOrPledgingNode(node.IdForNetwork, clock.NowUnixNano()) != nil
+}
+
+const (
+	VerifC24SelfPledging     = 0 // chain without state: the members' validation decides, then the announcement is deferred
+	VerifC24SelfNotBroadcast = 1 // chain with state, no peer sync point known
+	VerifC24SelfCatchingUp   = 2 // chain with state, every peer several rounds ahead
+)
+
+// VerifC24SelfAnnounce builds the empty self snapshot the queue loop builds
+// (kernel/queue.go sendTransactionsToNode) for txs and hands it to cosiHook.
+// It returns the number of aggregators and verifier entries left on the chain.
+func (node *Node) VerifC24SelfAnnounce(txs []crypto.Hash, situation int) (int, int, error) {
+	chain := node.chain
+	oldState, oldSync, oldRunning := chain.State, node.SyncPointsMap, chain.running
+	defer func() {
+		chain.State, node.SyncPointsMap, chain.running = oldState, oldSync, oldRunning
+	}()
+	if situation != VerifC24SelfPledging {
+		chain.State = &ChainState{
+			CacheRound: &CacheRound{
+				NodeId:     node.IdForNetwork,
+				Number:     2,
+				Timestamp:  uint64(clock.NowUnixNano()) - 1,
+				References: new(common.RoundLink),
+			},
+			FinalRound: &FinalRound{NodeId: node.IdForNetwork, Number: 1},
+		}
+		node.SyncPointsMap = nil
+		if situation == VerifC24SelfCatchingUp {
+			spm := make(map[crypto.Hash]*p2p.SyncPoint)
+			for _, cn := range node.NodesListWithoutState(clock.NowUnixNano(), true) {
+				spm[cn.IdForNetwork] = &p2p.SyncPoint{NodeId: cn.IdForNetwork, Number: 6}
+			}
+			node.SyncPointsMap = spm
+		}
+	}
+	s := &common.Snapshot{
+		Version: common.SnapshotVersionCommonEncoding,
+		NodeId:  node.IdForNetwork,
+	}
+	for _, h := range txs {
+		s.AddTransaction(h)
+	}
+	chain.running = true
+	_, err := chain.cosiHook(&CosiAction{
+		PeerId:   node.IdForNetwork,
+		Action:   CosiActionSelfEmpty,
+		Snapshot: s,
+	})
+	return len(chain.CosiAggregators), len(chain.CosiVerifiers), err
+}
